@@ -16,4 +16,24 @@ PROPS = {
                     'configured header names are ASCII (strings.ToLower is modelled on ASCII)'],
         'assumptions': ['header maps have unique keys (Go map)'],
     },
+    'C12': {
+        'theorems': ['memory_refines_spec', 'redis_refines_spec', 'stores_agree', 'memory_setTok', 'memory_setAuth',
+                     'memory_getTok', 'memory_getAuth', 'memory_clearAuth', 'memory_remove', 'memory_sweep_invisible',
+                     'read_sees_latest_write', 'read_sees_latest_login_state', 'ids_do_not_interfere',
+                     'remove_erases_everything', 'clear_keeps_tokens', 'created_fixed_by_first_write',
+                     'first_write_sets_created', 'replica_irrelevant', 'redis_clear_absent'],
+        'trusted': ['Redis command semantics (HSET/HMSET/HSETNX/HDEL/HMGET/HGET/DEL/EXPIREAT) as modelled in AuthModel/Store/Redis.lean; miniredis stands in for Redis in the differential run',
+                    'go-redis (struct scanning, time encoding), sync.Mutex; jwt parsing is the oracle `parses`',
+                    'atomicity of the memory store under concurrency is supported by a linearizability search over recorded concurrent histories (sampled, not proved)'],
+        'assumptions': ['the store clock and the Redis server clock agree', 'history-level refinement theorems are stated with timeouts off; with timeouts on see C10 and the per-operation memory theorems'],
+    },
+    'C10': {
+        'theorems': ['memory_never_late_tokens', 'memory_never_late_login_state', 'memory_not_dropped_inside',
+                     'memory_activity_keeps_created', 'memory_zero_is_no_limit', 'memory_sweep_not_needed',
+                     'redis_ttl_formula', 'redis_never_late', 'redis_not_dropped_inside', 'redis_write_keeps_created',
+                     'redis_login_write_keeps_created', 'redis_read_keeps_created', 'redis_write_uses_stored_creation'],
+        'trusted': ['Redis EXPIREAT/TTL semantics as modelled (key served iff server time < EXPIREAT second); miniredis in the differential run',
+                    'the system-level part uses the real clock for ~3 s (time.Sleep) with generous margins'],
+        'assumptions': ['store clock and Redis server clock agree', 'timeouts are non-negative (uint32 seconds in the configuration)'],
+    },
 }
